@@ -1,6 +1,7 @@
 package main
 
 import (
+	"os/exec"
 	"encoding/json"
 	"flag"
 	"fmt"
@@ -124,6 +125,9 @@ type HarnessSpec struct {
 	Solvers []string `json:"solvers"` // default: z3new,cvc5
 	Cap     int      `json:"cap"`     // seconds per obligation
 	Note    string   `json:"note"`
+	Enumerate bool   `json:"enumerate"` // enumerate all models of known-finding obligations
+	Split     map[string][2]int64 `json:"split,omitempty"` // labels enumerated concretely (cube splitting): label -> [lo,hi]
+	Procs     int    `json:"procs,omitempty"` // worker processes for cubes
 	// known-finding handling: assertions whose message starts with "KF:" are expected-sat
 }
 
@@ -137,6 +141,8 @@ type OblReport struct {
 	Trivial  bool               `json:"trivial,omitempty"`
 	Status   string             `json:"status"` // discharged | violated | inconclusive | witness-ok | vacuous
 	Model    map[string]interface{} `json:"model,omitempty"`
+	AllModels []map[string]interface{} `json:"all_models,omitempty"`
+	AllComplete bool `json:"all_models_complete,omitempty"`
 }
 
 type HarnessReport struct {
@@ -188,9 +194,12 @@ type runOpts struct {
 	cap     int
 	workers int
 	noSolve bool
+	cubeMod int // child mode: handle cubes with index % cubeMod == cubeRem
+	cubeRem int
+	self    []string // command line to re-invoke for cube workers
 }
 
-func (w *World) runHarness(spec HarnessSpec, ro runOpts) (rep HarnessReport, exOut *Exec) {
+func (w *World) runHarnessOnce(spec HarnessSpec, ro runOpts, fixed map[string]int64, cubeName string) (rep HarnessReport, exOut *Exec) {
 	rep.Spec = spec
 	t0 := time.Now()
 	defer func() {
@@ -208,6 +217,7 @@ func (w *World) runHarness(spec HarnessSpec, ro runOpts) (rep HarnessReport, exO
 		return
 	}
 	ex := w.newExecWithInit()
+	ex.fixed = fixed
 	exOut = ex
 	terms0 := TS.nextID
 	lift0 := TS.liftOps
@@ -230,7 +240,9 @@ func (w *World) runHarness(spec HarnessSpec, ro runOpts) (rep HarnessReport, exO
 	// obligations
 	b := &Batch{Name: spec.Name, Assumptions: ex.assumptions}
 	for _, n := range ex.nondets {
-		b.ModelVars = append(b.ModelVars, n.Var)
+		if n.Var != nil {
+			b.ModelVars = append(b.ModelVars, n.Var)
+		}
 	}
 	for i, a := range ex.asserts {
 		switch a.Kind {
@@ -284,6 +296,9 @@ func (w *World) runHarness(spec HarnessSpec, ro runOpts) (rep HarnessReport, exO
 	rep.SolveSecs = time.Since(t1).Seconds()
 
 	for _, o := range b.Obls {
+		if cubeName != "" {
+			o.Name = o.Name + " @" + cubeName
+		}
 		or := OblReport{Harness: spec.Name, Name: o.Name, Kind: o.Kind, Expect: o.Expect.String(), Verdicts: map[string]string{}, Secs: map[string]float64{}, Trivial: o.Trivial}
 		var sat, unsat, other int
 		var model map[string]string
@@ -325,9 +340,163 @@ func (w *World) runHarness(spec HarnessSpec, ro runOpts) (rep HarnessReport, exO
 		if model != nil && (or.Status == "violated" || o.Kind == "reach") {
 			or.Model = decodeModel(ex, model)
 		}
+		if spec.Enumerate && o.Kind == "known-finding" && or.Status == "violated" {
+			var vars []*Term
+			for _, n := range ex.nondets {
+				if n.Var != nil && (n.Var.sort == SBV || n.Var.sort == SBool) {
+					vars = append(vars, n.Var)
+				}
+			}
+			ms, complete := enumerateModels(b, o.Formula, vars, "z3new", capS, 500)
+			for _, m := range ms {
+				or.AllModels = append(or.AllModels, decodeModel(ex, m))
+			}
+			or.AllComplete = complete
+		}
 		rep.Obls = append(rep.Obls, or)
 	}
 	return
+}
+
+// runHarness runs a harness, possibly split into cubes over some of its
+// finite-domain inputs (each cube is a separate symbolic execution and a
+// separate set of solver queries; together the cubes cover the whole domain).
+func (w *World) runHarness(spec HarnessSpec, ro runOpts) (HarnessReport, *Exec) {
+	if len(spec.Split) == 0 {
+		return w.runHarnessOnce(spec, ro, nil, "")
+	}
+	var labels []string
+	for l := range spec.Split {
+		labels = append(labels, l)
+	}
+	sort.Strings(labels)
+	type cube struct {
+		fixed map[string]int64
+		name  string
+	}
+	var cubes []cube
+	var rec func(i int, cur map[string]int64, name string)
+	rec = func(i int, cur map[string]int64, name string) {
+		if i == len(labels) {
+			m := map[string]int64{}
+			for k, v := range cur {
+				m[k] = v
+			}
+			cubes = append(cubes, cube{m, strings.TrimPrefix(name, ",")})
+			return
+		}
+		r := spec.Split[labels[i]]
+		for v := r[0]; v <= r[1]; v++ {
+			cur[labels[i]] = v
+			rec(i+1, cur, fmt.Sprintf("%s,%s=%d", name, labels[i], v))
+		}
+	}
+	rec(0, map[string]int64{}, "")
+	procs := spec.Procs
+	if procs <= 0 {
+		procs = 1
+	}
+	if ro.cubeMod == 0 && procs > 1 && len(ro.self) > 0 {
+		return w.runCubesParallel(spec, ro, procs, len(cubes))
+	}
+	var total HarnessReport
+	total.Spec = spec
+	funcs := map[string]bool{}
+	for i, c := range cubes {
+		if ro.cubeMod > 0 && i%ro.cubeMod != ro.cubeRem {
+			continue
+		}
+		rep, _ := w.runHarnessOnce(spec, ro, c.fixed, c.name)
+		total.ExecSecs += rep.ExecSecs
+		total.SolveSecs += rep.SolveSecs
+		total.Instrs += rep.Instrs
+		total.Terms += rep.Terms
+		total.LiftOps += rep.LiftOps
+		total.Assumptions += rep.Assumptions
+		total.Nondets = rep.Nondets
+		for _, f := range rep.Funcs {
+			funcs[f] = true
+		}
+		total.Obls = append(total.Obls, rep.Obls...)
+		if rep.Error != "" {
+			total.Error = rep.Error + " @" + c.name
+		}
+	}
+	for f := range funcs {
+		total.Funcs = append(total.Funcs, f)
+	}
+	sort.Strings(total.Funcs)
+	return total, nil
+}
+
+func (w *World) runCubesParallel(spec HarnessSpec, ro runOpts, procs, ncubes int) (HarnessReport, *Exec) {
+	if procs > ncubes {
+		procs = ncubes
+	}
+	type res struct {
+		rep HarnessReport
+		err error
+	}
+	ch := make(chan res, procs)
+	tmpdir, _ := os.MkdirTemp("", "symgo-cubes")
+	defer os.RemoveAll(tmpdir)
+	for r := 0; r < procs; r++ {
+		go func(r int) {
+			out := filepath.Join(tmpdir, fmt.Sprintf("cube-%d.json", r))
+			args := append([]string{}, ro.self[1:]...)
+			args = append(args, "-only", "^"+spec.Name+"$", "-cubemod", fmt.Sprint(procs), "-cuberem", fmt.Sprint(r), "-out", out, "-quiet")
+			cmd := exec.Command(ro.self[0], args...)
+			cmd.Stderr = os.Stderr
+			err := cmd.Run()
+			var doc struct {
+				Harnesses []HarnessReport `json:"harnesses"`
+			}
+			b, rerr := os.ReadFile(out)
+			if rerr != nil {
+				ch <- res{err: fmt.Errorf("cube worker %d: %v %v", r, err, rerr)}
+				return
+			}
+			if jerr := json.Unmarshal(b, &doc); jerr != nil || len(doc.Harnesses) != 1 {
+				ch <- res{err: fmt.Errorf("cube worker %d: bad output", r)}
+				return
+			}
+			ch <- res{rep: doc.Harnesses[0]}
+		}(r)
+	}
+	var total HarnessReport
+	total.Spec = spec
+	funcs := map[string]bool{}
+	for i := 0; i < procs; i++ {
+		r := <-ch
+		if r.err != nil {
+			total.Error = r.err.Error()
+			continue
+		}
+		rep := r.rep
+		if rep.ExecSecs > total.ExecSecs {
+			total.ExecSecs = rep.ExecSecs
+		}
+		if rep.SolveSecs > total.SolveSecs {
+			total.SolveSecs = rep.SolveSecs
+		}
+		total.Instrs += rep.Instrs
+		total.Terms += rep.Terms
+		total.LiftOps += rep.LiftOps
+		total.Assumptions += rep.Assumptions
+		total.Nondets = rep.Nondets
+		for _, f := range rep.Funcs {
+			funcs[f] = true
+		}
+		total.Obls = append(total.Obls, rep.Obls...)
+		if rep.Error != "" {
+			total.Error = rep.Error
+		}
+	}
+	for f := range funcs {
+		total.Funcs = append(total.Funcs, f)
+	}
+	sort.Strings(total.Funcs)
+	return total, nil
 }
 
 var probeVar *Term
@@ -342,6 +511,10 @@ func assumptionProbe() *Term {
 func decodeModel(ex *Exec, m map[string]string) map[string]interface{} {
 	out := map[string]interface{}{}
 	for _, n := range ex.nondets {
+		if n.Kind == "fixed" {
+			out[n.Label] = n.Fixed
+			continue
+		}
 		raw, ok := m[n.Var.s]
 		if !ok {
 			continue
@@ -350,6 +523,9 @@ func decodeModel(ex *Exec, m map[string]string) map[string]interface{} {
 		case "int", "enum", "pick":
 			if v, ok := smtValBV(raw); ok {
 				out[n.Label] = v
+				if n.Kind == "pick" && v >= 0 && int(v) < len(n.Opts) {
+					out[n.Label+"$text"] = n.Opts[v]
+				}
 			}
 		case "lang":
 			if v, ok := smtValBV(raw); ok {
@@ -392,6 +568,10 @@ func main() {
 	switch os.Args[1] {
 	case "run":
 		cmdRun(os.Args[2:])
+	case "check":
+		cmdCheck(os.Args[2:])
+	case "selftest":
+		cmdSelftest()
 	default:
 		fmt.Println("unknown command")
 		os.Exit(2)
@@ -424,6 +604,9 @@ func cmdRun(args []string) {
 	solvers := fs.String("solvers", "z3new,cvc5", "solvers")
 	noSolve := fs.Bool("nosolve", false, "execute only")
 	verbose := fs.Bool("v", false, "verbose")
+	cubeMod := fs.Int("cubemod", 0, "(internal) cube worker modulus")
+	cubeRem := fs.Int("cuberem", 0, "(internal) cube worker remainder")
+	quiet := fs.Bool("quiet", false, "no summary output")
 	fs.Parse(args)
 
 	t0 := time.Now()
@@ -434,7 +617,14 @@ func cmdRun(args []string) {
 	if *only != "" {
 		re = regexp.MustCompile(*only)
 	}
-	ro := runOpts{solvers: strings.Split(*solvers, ","), cap: *capS, workers: *workers, noSolve: *noSolve}
+	ro := runOpts{solvers: strings.Split(*solvers, ","), cap: *capS, workers: *workers, noSolve: *noSolve, cubeMod: *cubeMod, cubeRem: *cubeRem}
+	if *cubeMod == 0 {
+		exe, _ := os.Executable()
+		ro.self = []string{exe, "run", "-repo", *repo, "-harness", *hdir, "-specs", *specPath, "-tier", *tier, "-cap", fmt.Sprint(*capS), "-workers", "2", "-solvers", *solvers}
+		if *noSolve {
+			ro.self = append(ro.self, "-nosolve")
+		}
+	}
 	if ro.cap == 0 {
 		ro.cap = 120
 		if *tier == "thorough" {
@@ -465,9 +655,10 @@ func cmdRun(args []string) {
 		}
 		rep, _ := w.runHarness(s, ro)
 		reports = append(reports, rep)
-		if *verbose || true {
+		if !*quiet {
 			summarize(rep)
 		}
+		_ = verbose
 	}
 	res := map[string]interface{}{
 		"load_s":       loadSecs,
